@@ -389,9 +389,32 @@ class FileSaver(strax.Saver):
                 # complaint about the half-written chunk metadata.
             os.remove(fn)
 
+        discontinuity = None
+        if self.is_forked and "exception" not in self.md:
+            # Forked savers cannot check continuity while saving (they do not
+            # see the other chunks): do it now, so that data which cannot be
+            # loaded again is not stored as complete.
+            chunks = sorted(self.md["chunks"], key=lambda x: x["chunk_i"])
+            for previous, current in zip(chunks[:-1], chunks[1:]):
+                if (
+                    current["chunk_i"] == previous["chunk_i"] + 1
+                    and current["run_id"] == previous["run_id"]
+                    and not current.get("subruns")
+                    and previous["end"] != current["start"]
+                ):
+                    discontinuity = (
+                        f"Data is not continuous. Chunk {current['chunk_i']} of {self.dirname} "
+                        f"starts at {current['start']}, should have started at {previous['end']}"
+                    )
+                    self.md["exception"] = discontinuity
+                    break
+
         self._flush_metadata()
 
         os.rename(self.tempdirname, self.dirname)
+
+        if discontinuity is not None:
+            raise ValueError(discontinuity)
 
 
 @export
